@@ -281,6 +281,24 @@ func postRun(res *vf.Result, mf MainFinal, scratch string, cp caps, resets []res
 		}
 	}
 
+	// ---- restores that ran concurrently with everything else: success must be a committed state
+	for _, r := range mf.Restores {
+		res.Evals++
+		res.Count("concurrent_restores_judged", 1)
+		switch {
+		case r.Left:
+			res.Violate("concurrent-restore-left-output", "%s: a Restore(latest) that ran while the daemon was working failed (%s) and left a database at its output path%s", tag, r.Integ, root)
+		case r.Integ != "ok":
+			res.Violate("concurrent-restore-inconsistent"+sfx, "%s: a Restore(latest) that ran while the daemon was working reported success at t=%.2fs but its output fails integrity_check / is unreadable: %s%s", tag, float64(r.T1)/1e9, trunc(r.Integ, 160), note)
+		case r.Poison > 0:
+			res.Violate("concurrent-restore-inconsistent"+sfx, "%s: a Restore(latest) that ran while the daemon was working reported success at t=%.2fs with %d rows of rolled-back transactions%s", tag, float64(r.T1)/1e9, r.Poison, note)
+		case mf.Hashes[r.K] == "":
+			res.Violate("concurrent-restore-inconsistent"+sfx, "%s: a Restore(latest) that ran while the daemon was working reported success at t=%.2fs with ledger k=%d, which the application never committed%s", tag, float64(r.T1)/1e9, r.K, note)
+		case mf.Hashes[r.K] != r.Hash:
+			res.Violate("concurrent-restore-inconsistent"+sfx, "%s: a Restore(latest) that ran while the daemon was working reported success at t=%.2fs; its content at ledger k=%d differs from what the application committed (mixture of commits)%s", tag, float64(r.T1)/1e9, r.K, note)
+		}
+	}
+
 	// ---- C01: final acknowledged state
 	if mf.SrcCopy != "" && (mf.AckSync || mf.AckClose) {
 		res.Evals++
